@@ -389,6 +389,36 @@ def run(ctx):
                 'rng', None, 2, 1, 2, paths, (False,) * 4)]), R(1, 1)))
             yield f'one cell reached along {paths} paths via a range', \
                 cells, top2
+        # a formula whose OWN coordinates lie inside a range it reads on
+        # ANOTHER sheet (same column and row, different sheet: no cycle)
+        F4_ = (False,) * 4
+        data = {('Data', c, r): c * 10 + r for c in range(1, 4)
+                for r in range(1, 4)}
+        cells = dict(data)
+        cells[('Summary', 2, 2)] = ('f', ('call', 'SUM', [
+            ('rng', 'Data', 1, 1, 3, 3, F4_)]))
+        yield 'Summary!B2 = SUM(Data!A1:C3)', cells, ('Summary', 2, 2)
+        cells = dict(data)
+        cells[('Summary', 1, 1)] = ('f', plus(('call', 'SUM', [
+            ('rng', 'Data', 1, 1, 1, 3, F4_)]), ('ref', 'Data', 1, 1, False,
+                                                  False)))
+        cells[('Summary', 1, 2)] = ('f', plus(R(1, 1), ONE))
+        yield 'Summary!A2 -> Summary!A1 = SUM(Data!A1:A3)+Data!A1', cells, \
+            ('Summary', 1, 2)
+        cells = {('S1', c, r): 1 for c in (1, 2) for r in (1, 2)}
+        cells.update({('S2', c, r): 2 for c in range(1, 5)
+                      for r in range(1, 5) if (c, r) != (4, 4)})
+        cells[('S2', 4, 4)] = ('f', ('call', 'SUM', [
+            ('rng', 'S1', 1, 1, 2, 2, F4_)]))
+        cells[('S1', 3, 3)] = ('f', ('call', 'SUM', [
+            ('rng', 'S2', 1, 1, 4, 4, F4_)]))
+        yield 'two sheets totalling each other\'s blocks', cells, ('S1', 3, 3)
+        cells = dict(data)
+        cells[('Summary', 3, 1)] = ('f', ('call', 'IF', [
+            ('lit', True, 'TRUE'), ('call', 'MAX', [
+                ('rng', 'Data', 2, 1, 3, 2, F4_)]), ('lit', 0, '0')]))
+        yield 'Summary!C1 = IF(TRUE,MAX(Data!B1:C2),0)', cells, \
+            ('Summary', 3, 1)
         for depth in (6, 12, 22):
             # every cell refers to the next one TWICE and hands a blank on
             cells = {}
